@@ -46,7 +46,17 @@ def compare_wfn(wfn, loaded, rng, rel_tol=1e-6):
     if wfn["mo_kind"] != "generalized" and (mo.norba != wfn["norba"] or mo.norbb != wfn["norbb"]):
         out.append(f"norba/norbb {mo.norba}/{mo.norbb} (model {wfn['norba']}/{wfn['norbb']})")
     pts = probe_points(wfn["atcoords"], rng)
-    pm, sm = orbital_values(f_model, wfn["atcoords"], C, pts)
+    # The centres: coordinates are compared on their own (expectation ("atcoords",), tolerance units.RTOL for the drift of the
+    # angstrom constant between CODATA releases).  When the loaded centres agree with the model's within that drift, the model
+    # functions are evaluated around the LOADED centres, so that a drift of 7e-10 * |r| (1e-7 bohr for atoms 190 bohr from the
+    # origin) is not amplified by 2 alpha |r - R| into an apparent difference of the orbitals.
+    from . import units
+
+    centres = np.asarray(wfn["atcoords"], dtype=float)
+    lc = None if loaded.atcoords is None else np.asarray(loaded.atcoords, dtype=float)
+    if lc is not None and lc.shape == centres.shape and (np.abs(lc - centres) <= 2 * units.RTOL * np.abs(centres) + 1e-9).all():
+        centres = lc
+    pm, sm = orbital_values(f_model, centres, C, pts)
     pl, _ = orbital_values(f_loaded, loaded.atcoords, mo.coeffs, pts)
     bad = np.abs(pm - pl) > rel_tol * sm + 1e-12
     if bad.any():
